@@ -21,6 +21,26 @@ CHECKS = {
             "Every build attempt in scope is classified by exact omegas (must-reject / must-accept / either within 1e-9) and compared with the real outcome under catch_unwind; each graph is additionally built under every one of the E! hash iteration orders and the serialised tables must be byte-identical.",
             "Trusted: exact fixed-point omegas; the seam reproduces production hashing when no order is installed. E up to 10 only for the no-panic clause; E near 64 is not explorable (2^E table).",
             "DESIGN.md §5/C05"),
+    "C12": ("kernel", "exploration",
+            "exhaustive enumeration of a deterministic (a,p) lattice built from the code's own branch thresholds, vs independent P(a,x)",
+            "Every point of a dense deterministic lattice over shape a in [0.05,100] and p in [0,1) - including p=0, p within 2^-53 of 0 and 1, ulp neighbours of every start-value branch threshold and of the a~1 window - is evaluated with the real inverse_gamma_lr under catch_unwind and judged: Err or finite positive; accurate to 2e-8 where the true quantile >= 1e-13; monotone along each a-row. The sampler binding (lambda of a sample is this function of dod and the designated coordinate) is checked on explored executions by the sampler engine.",
+            "Trusted: reference P/Q by series and Lentz continued fraction with libm lgamma. A lattice, not the continuum: values between lattice points are not covered.",
+            "DESIGN.md §5/C12"),
+    "C15": ("kernel", "exploration",
+            "complete enumeration of small-integer SPD matrices and structured families vs exact rational linear algebra",
+            "All symmetric integer matrices with diagonal 1..4 and off-diagonal -2..2 up to dim 3 (quick) / 4 (thorough), structured families (Hilbert-like, graded, Pascal, Lehmer, min, tridiagonal, arrow, Wilson) dims 1..8 in all simultaneous permutations for dim<=5, and L matrices of banana and mercedes graphs, are decomposed with the real routine and compared with the exact inverse, determinant and factor identities, tolerance 2^-52*2^14*cond_1.",
+            "Trusted: exact BigRational linear algebra. cond_1 <= 1e10 and range clause as the property states.",
+            "DESIGN.md §5/C15"),
+    "C16": ("kernel", "exploration",
+            "complete enumeration of small symmetric matrices (definite, semi-definite, indefinite) x tolerance alphabet; exact recomputation of the L21 distance",
+            "Every symmetric integer matrix of the alphabet up to dim 3, plus 2^±200/±500 scaled copies, under 8 tolerances (None, 0, 1e-300 ... +inf): Ok implies non-zero determinant and pivot product, and with the test on Ok implies no NaN and an exactly recomputed L21 distance <= tol (+ f64 rounding slack).",
+            "Trusted: exact rational recomputation of inverse*M - I. Panics on non-definite input are recorded, not judged.",
+            "DESIGN.md §5/C16"),
+    "C20": ("kernel", "exploration",
+            "full product of a 16-value boundary alphabet over both operands (D<=3, thorough D<=4), deviation-bounded for D=4..8, bit-exact IEEE oracle",
+            "Every Vector operator and constructor and every f64 MomTropFloat method is evaluated on the complete product of a boundary-value alphabet and compared bit-for-bit with componentwise IEEE arithmetic accumulated from +0 at index 0 upward.",
+            "Trusted: Rust's f64 arithmetic as the IEEE reference. NaN payloads not compared.",
+            "DESIGN.md §5/C20"),
 }
 
 NOT_BUILT_REASON = "check not built yet in this session (see DESIGN.md §10 for the plan); not claimed until it passes and has been mutation-tested"
